@@ -8,6 +8,8 @@ PARTS = {
   'C05': {
     'quick': [
       T('probe5', 'base', 'prop=C05', 'keys=probe', 'vals=probe', 'nkeys=5'),
+      # the last operation of the history in the state key (lib/vf_bfs.h suffix=K)
+      T('probe4-sfx1', 'base', 'prop=C05', 'keys=probe', 'vals=probe', 'nkeys=4', 'suffix=1'), T('probe3-two-sfx1', 'base', 'prop=C05', 'keys=probe', 'vals=probe', 'nkeys=3', 'two=1', 'depth=5', 'suffix=1'),
       T('probe4-two', 'base', 'prop=C05', 'keys=probe', 'vals=probe', 'nkeys=4', 'two=1', 'depth=6'),
       T('strprobe4-asan', 'asan', 'prop=C05', 'keys=str', 'vals=probe', 'nkeys=4'),
       T('intprobe5', 'base', 'prop=C05', 'keys=int', 'vals=probe', 'nkeys=5'), T('probeint4-asan', 'asan', 'prop=C05', 'keys=probe', 'vals=int', 'nkeys=4'),
@@ -15,6 +17,8 @@ PARTS = {
     ],
     'thorough': [
       T('probe7', 'base', 'prop=C05', 'keys=probe', 'vals=probe', 'nkeys=7'),
+      # the last operation of the history in the state key (lib/vf_bfs.h suffix=K)
+      T('probe5-sfx1', 'base', 'prop=C05', 'keys=probe', 'vals=probe', 'nkeys=5', 'suffix=1'), T('probe3-two-sfx1', 'base', 'prop=C05', 'keys=probe', 'vals=probe', 'nkeys=3', 'two=1', 'depth=6', 'suffix=1'), T('probe3-sfx2', 'base', 'prop=C05', 'keys=probe', 'vals=probe', 'nkeys=3', 'suffix=2'),
       T('probe4-two', 'base', 'prop=C05', 'keys=probe', 'vals=probe', 'nkeys=4', 'two=1', 'depth=9'),
       T('strprobe5-asan', 'asan', 'prop=C05', 'keys=str', 'vals=probe', 'nkeys=5'),
       T('intprobe7', 'base', 'prop=C05', 'keys=int', 'vals=probe', 'nkeys=7'), T('probeint5-asan', 'asan', 'prop=C05', 'keys=probe', 'vals=int', 'nkeys=5'),
@@ -39,12 +43,16 @@ PARTS = {
   'C12': {
     'quick': [
       T('int5', 'base', 'prop=C12', 'keys=int', 'nkeys=5'),
+      # the last operation of the history in the state key (lib/vf_bfs.h suffix=K)
+      T('int4-sfx1', 'base', 'prop=C12', 'keys=int', 'nkeys=4', 'suffix=1'),
       T('str4', 'base', 'prop=C12', 'keys=str', 'nkeys=4'),
       T('probe4', 'base', 'prop=C12', 'keys=probe', 'vals=probe', 'nkeys=4'),
       T('int4-asan', 'asan', 'prop=C12', 'keys=int', 'nkeys=4'),
     ],
     'thorough': [
       T('int7', 'base', 'prop=C12', 'keys=int', 'nkeys=7'),
+      # the last operation of the history in the state key (lib/vf_bfs.h suffix=K)
+      T('int5-sfx1', 'base', 'prop=C12', 'keys=int', 'nkeys=5', 'suffix=1'), T('probe3-sfx1', 'base', 'prop=C12', 'keys=probe', 'vals=probe', 'nkeys=3', 'suffix=1'),
       T('str5', 'base', 'prop=C12', 'keys=str', 'nkeys=5'),
       T('probe5', 'base', 'prop=C12', 'keys=probe', 'vals=probe', 'nkeys=5'),
       T('int5-asan', 'asan', 'prop=C12', 'keys=int', 'nkeys=5'),
